@@ -139,7 +139,9 @@ fn add_direct_body<const N: usize, const NI: usize, const NO: usize>(maxch: usiz
 
 // ------------------------------------------------------------------------------------------------
 // pop_used() and the read-only queries, direct descriptors
-fn pop_direct_body<const N: usize, const NI: usize, const NO: usize>(maxch: usize) {
+fn pop_direct_body<const N: usize, const NI: usize, const NO: usize>(maxch: usize) { pop_direct_body_h::<N, NI, NO>(maxch, false) }
+/// `hostile`: the device may have written anything anywhere it can reach (C07); the caller stays honest
+fn pop_direct_body_h<const N: usize, const NI: usize, const NO: usize>(maxch: usize, hostile: bool) {
     let mut b = any_backing::<N>();
     // chain 0 is the one whose buffers the caller holds (unsafe contract of pop_used: same buffers as at add)
     let c0 = NI + NO;
@@ -159,14 +161,18 @@ fn pop_direct_body<const N: usize, const NI: usize, const NO: usize>(maxch: usiz
     let uidx = b.used.idx.load(Ordering::Relaxed);
     let m = uidx.wrapping_sub(lu);
     let nch = (g.cnt[0] > 0) as u16 + (g.cnt[1] > 0) as u16 + (g.cnt[2] > 0) as u16;
-    kani::assume(m <= nch);
     let slot = (lu as usize) & (N - 1);
-    let id = b.used.ring[slot].id;
+    let id_raw = b.used.ring[slot].id;
     let dlen = b.used.ring[slot].len;
-    if m > 0 {
-        kani::assume((g.cnt[0] > 0 && id == g.head[0] as u32) || (g.cnt[1] > 0 && id == g.head[1] as u32) || (g.cnt[2] > 0 && id == g.head[2] as u32));
+    if !hostile {
+        kani::assume(m <= nch);
+        if m > 0 {
+            kani::assume((g.cnt[0] > 0 && id_raw == g.head[0] as u32) || (g.cnt[1] > 0 && id_raw == g.head[1] as u32) || (g.cnt[2] > 0 && id_raw == g.head[2] as u32));
+        }
     }
-    let token: u16 = kani::any();
+    // the driver looks at the low 16 bits of the id the device wrote
+    let id = (id_raw as u16) as u32;
+    let token: u16 = if hostile { g.head[0] } else { kani::any() };
     // the caller presents chain 0's buffers, so either its token or a token that is not next
     kani::assume(token == g.head[0] || m == 0 || token as u32 != id);
 
@@ -366,7 +372,8 @@ fn add_indirect_body<const N: usize, const NI: usize, const NO: usize>(maxch: us
 
 // ------------------------------------------------------------------------------------------------
 // pop_used(), indirect descriptors enabled; chain 0 has NB0 buffers (NB0 = 1: described directly)
-fn pop_indirect_body<const N: usize, const NI: usize, const NO: usize>(maxch: usize) {
+fn pop_indirect_body<const N: usize, const NI: usize, const NO: usize>(maxch: usize) { pop_indirect_body_h::<N, NI, NO>(maxch, false) }
+fn pop_indirect_body_h<const N: usize, const NI: usize, const NO: usize>(maxch: usize, hostile: bool) {
     let nb0 = NI + NO;
     let mut b = any_backing::<N>();
     lg_init();
@@ -386,14 +393,17 @@ fn pop_indirect_body<const N: usize, const NI: usize, const NO: usize>(maxch: us
     let uidx = b.used.idx.load(Ordering::Relaxed);
     let m = uidx.wrapping_sub(lu);
     let nch = g.cnt[0] + g.cnt[1] + g.cnt[2];
-    kani::assume(m <= nch);
     let slot = (lu as usize) & (N - 1);
-    let id = b.used.ring[slot].id;
+    let id_raw = b.used.ring[slot].id;
     let dlen = b.used.ring[slot].len;
-    if m > 0 {
-        kani::assume((g.cnt[0] > 0 && id == g.head[0] as u32) || (g.cnt[1] > 0 && id == g.head[1] as u32) || (g.cnt[2] > 0 && id == g.head[2] as u32));
+    if !hostile {
+        kani::assume(m <= nch);
+        if m > 0 {
+            kani::assume((g.cnt[0] > 0 && id_raw == g.head[0] as u32) || (g.cnt[1] > 0 && id_raw == g.head[1] as u32) || (g.cnt[2] > 0 && id_raw == g.head[2] as u32));
+        }
     }
-    let token: u16 = kani::any();
+    let id = (id_raw as u16) as u32;
+    let token: u16 = if hostile { g.head[0] } else { kani::any() };
     kani::assume(token == g.head[0] || m == 0 || token as u32 != id);
     let dev0 = dev_snap(&b);
     let p0 = priv_snap(&q);
@@ -487,7 +497,7 @@ fn gen_indirect_in_inv_4() {
 
 // ------------------------------------------------------------------------------------------------
 // instantiations: SIZE, number of device-readable and device-writable buffers are compile-time parameters
-// @harness props=C01,C02,C03,C04 tier=quick timeout=900
+// @harness props=C01,C02,C03,C04,C07 tier=quick timeout=900
 #[kani::proof]
 #[kani::unwind(10)]
 fn step_add_direct_4_i1o2() { add_direct_body::<4, 1, 2>(3) }
@@ -792,3 +802,21 @@ fn step_pop_indirect_1_i1o0() { pop_indirect_body::<1, 1, 0>(3) }
 #[kani::unwind(18)]
 fn step_pop_indirect_8_i1o1() { pop_indirect_body::<8, 1, 1>(3) }
 
+
+// hostile device (C07): everything device-reachable is arbitrary - descriptor table, available ring, used ring ids,
+// lengths and index jumps; the honest caller polls for its own chain.  Outcome: NotReady / WrongToken with
+// untouched state, or success with exactly the C03 post-state; no memory-safety check may fail (panics are clean).
+// @harness props=C07 tier=quick timeout=1800 panic=clean
+#[kani::proof]
+#[kani::unwind(10)]
+fn c07_pop_hostile_direct_4_i1o2() { pop_direct_body_h::<4, 1, 2>(3, true) }
+
+// @harness props=C07 tier=thorough timeout=3600 panic=clean
+#[kani::proof]
+#[kani::unwind(10)]
+fn c07_pop_hostile_direct_4_i1o0() { pop_direct_body_h::<4, 1, 0>(3, true) }
+
+// @harness props=C07 tier=quick timeout=1800 panic=clean
+#[kani::proof]
+#[kani::unwind(18)]
+fn c07_pop_hostile_indirect_4_i1o1() { pop_indirect_body_h::<4, 1, 1>(3, true) }
